@@ -4,8 +4,9 @@
 
     Granularity: one event = one call of a Manager entry point (shrex-sub validator, header arrival, Peer, the
     DoneFunc, discovery update, disconnect event, one GC round), executed atomically.  The manager does not hold
-    one lock across such a call, so interleavings INSIDE a call are not represented here (they are exercised by the
-    harness' concurrent stress only).
+    one lock across such a call: interleavings INSIDE a call are the subject of [Peers.Fine] (same state, every call
+    split into its critical sections; the events below are its threads run alone from start to finish, and every
+    sequential correspondence case is evaluated by both models).
 
     Go map iteration order: [validatedPool] adds [p.peers()] (a walk over a map) to [nodes], and the GC blacklists
     a set collected in a map; the order decides the order of [nodes.peersList] and the moments lazy cleanups run.  The
